@@ -2013,3 +2013,421 @@ def _locals_of(f: Func) -> frozenset:
         from ..model import local_names
         _LOCALS_CACHE[k] = frozenset(local_names(f))
     return _LOCALS_CACHE[k]
+
+
+# ---------------------------------------------------------------------------
+# sequence-length facts (C09 R16): what proves a sequence long enough for an integer index
+# ---------------------------------------------------------------------------
+# Appended for C09 R16; nothing above uses these.
+
+def _txt(e) -> str:
+    return ast.unparse(e)
+
+
+def _const_len(e) -> Optional[int]:
+    """least length of a str/bytes constant, or of the members of a tuple of them (startswith/endswith argument)"""
+    if isinstance(e, ast.Constant) and isinstance(e.value, (str, bytes)):
+        return len(e.value)
+    if isinstance(e, ast.Tuple) and e.elts:
+        ls = [_const_len(x) for x in e.elts]
+        return None if any(x is None for x in ls) else min(ls)
+    return None
+
+
+def _int_const(e) -> Optional[int]:
+    if isinstance(e, ast.Constant) and isinstance(e.value, int) and not isinstance(e.value, bool):
+        return e.value
+    if isinstance(e, ast.UnaryOp) and isinstance(e.op, ast.USub) and isinstance(e.operand, ast.Constant) \
+            and isinstance(e.operand.value, int) and not isinstance(e.operand.value, bool):
+        return -e.operand.value
+    return None
+
+
+def _is_len_of(e, base: str, len_aliases=()) -> bool:
+    if isinstance(e, ast.Call) and isinstance(e.func, ast.Name) and e.func.id == 'len' and len(e.args) == 1 and not e.keywords:
+        return _txt(e.args[0]) == base
+    return isinstance(e, ast.Name) and e.id in len_aliases
+
+
+def _is_part_of(e, base: str) -> bool:
+    """e denotes the sequence itself or a slice of it (a slice is never longer than the sequence)"""
+    if _txt(e) == base:
+        return True
+    return isinstance(e, ast.Subscript) and isinstance(e.slice, ast.Slice) and _txt(e.value) == base
+
+
+_MIRROR = {ast.Lt: ast.Gt, ast.Gt: ast.Lt, ast.LtE: ast.GtE, ast.GtE: ast.LtE, ast.Eq: ast.Eq, ast.NotEq: ast.NotEq}
+
+
+def _pair_min_len(l, op, r, truth: bool, base: str, len_aliases) -> int:
+    # len(base) <op> c
+    for a, o, b in ((l, type(op), r), (r, _MIRROR.get(type(op)), l)):
+        if o is None:
+            continue
+        c = _int_const(b)
+        if c is not None and _is_len_of(a, base, len_aliases):
+            table = {(ast.Gt, True): c + 1, (ast.GtE, True): c, (ast.Lt, False): c, (ast.LtE, False): c + 1, (ast.Eq, True): c, (ast.NotEq, False): c}
+            return max(0, table.get((o, truth), 0))
+    # <base or a slice of it> == <non-empty constant>   /   != ... is false
+    if isinstance(op, (ast.Eq, ast.NotEq)) and truth == isinstance(op, ast.Eq):
+        for a, b in ((l, r), (r, l)):
+            n = _const_len(b) if isinstance(b, ast.Constant) else None
+            if n and _is_part_of(a, base):
+                return n
+    # <base> != ''   /   == '' is false
+    if isinstance(op, (ast.Eq, ast.NotEq)) and truth == isinstance(op, ast.NotEq):
+        for a, b in ((l, r), (r, l)):
+            if isinstance(b, ast.Constant) and isinstance(b.value, (str, bytes)) and len(b.value) == 0 and _txt(a) == base:
+                return 1
+    # <non-empty constant> in <base>
+    if isinstance(op, (ast.In, ast.NotIn)) and truth == isinstance(op, ast.In) and _txt(r) == base:
+        n = _const_len(l) if isinstance(l, ast.Constant) else None
+        if n:
+            return n
+    return 0
+
+
+def seq_min_len(expr, truth: bool, base: str, len_aliases=()) -> int:
+    """Least length of the sequence written `base` that follows from `expr` having evaluated to `truth` (0: nothing known).
+    Read: truthiness of the sequence, len() comparisons with integer constants (also through a local that holds len(base)),
+    startswith / endswith of non-empty constants, equality of the sequence (or a slice of it) with a non-empty constant,
+    `<constant> in <base>`, and and/or/not over those."""
+    if isinstance(expr, ast.UnaryOp) and isinstance(expr.op, ast.Not):
+        return seq_min_len(expr.operand, not truth, base, len_aliases)
+    if isinstance(expr, ast.BoolOp):
+        vals = [seq_min_len(v, truth, base, len_aliases) for v in expr.values]
+        all_hold = (isinstance(expr.op, ast.And) and truth) or (isinstance(expr.op, ast.Or) and not truth)
+        return max(vals) if all_hold else min(vals)
+    if _txt(expr) == base:
+        return 1 if truth else 0
+    if isinstance(expr, ast.Call) and isinstance(expr.func, ast.Attribute) and expr.func.attr in ('startswith', 'endswith') \
+            and _txt(expr.func.value) == base and expr.args and truth:
+        return _const_len(expr.args[0]) or 0
+    if isinstance(expr, ast.Compare):
+        operands = [expr.left] + list(expr.comparators)
+        pairs = list(zip(operands, expr.ops, operands[1:]))
+        if truth:
+            return max(_pair_min_len(l, o, r, True, base, len_aliases) for l, o, r in pairs)
+        if len(pairs) == 1:
+            l, o, r = pairs[0]
+            return _pair_min_len(l, o, r, False, base, len_aliases)
+    return 0
+
+
+def index_in_range(expr, truth: bool, idx: str, base: str, len_aliases=()) -> Tuple[bool, bool]:
+    """(non-negative, below len(base)) facts about the index variable `idx` that follow from `expr` being `truth`."""
+    if isinstance(expr, ast.UnaryOp) and isinstance(expr.op, ast.Not):
+        return index_in_range(expr.operand, not truth, idx, base, len_aliases)
+    if isinstance(expr, ast.BoolOp):
+        rs = [index_in_range(v, truth, idx, base, len_aliases) for v in expr.values]
+        all_hold = (isinstance(expr.op, ast.And) and truth) or (isinstance(expr.op, ast.Or) and not truth)
+        comb = any if all_hold else all
+        return comb(r[0] for r in rs), comb(r[1] for r in rs)
+    lo = hi = False
+    if isinstance(expr, ast.Compare):
+        operands = [expr.left] + list(expr.comparators)
+        pairs = list(zip(operands, expr.ops, operands[1:]))
+        if not truth and len(pairs) != 1:
+            return False, False
+        for l, op, r in pairs:
+            for a, o, b in ((l, type(op), r), (r, _MIRROR.get(type(op)), l)):
+                if o is None or not (isinstance(a, ast.Name) and a.id == idx):
+                    continue
+                # a is the index: a <o> b
+                c = _int_const(b)
+                if c is not None:
+                    if (o, truth) in ((ast.GtE, True), (ast.Lt, False)) and c >= 0:
+                        lo = True
+                    if (o, truth) in ((ast.Gt, True), (ast.LtE, False)) and c >= -1:
+                        lo = True
+                    if (o, truth) == (ast.Eq, True) and c >= 0:
+                        lo = True
+                if _is_len_of(b, base, len_aliases) and (o, truth) in ((ast.Lt, True), (ast.GtE, False)):
+                    hi = True
+    return lo, hi
+
+
+def regex_group_min_width(pattern, group: int) -> Optional[int]:
+    """least number of characters capture group `group` of the pattern spans when it takes part in a match"""
+    import re as _re
+    try:
+        parser = _re._parser            # Python >= 3.11
+    except AttributeError:              # pragma: no cover
+        import sre_parse as parser
+    try:
+        tree = parser.parse(pattern)
+    except Exception:
+        return None
+    found: List[int] = []
+
+    def rec(x):
+        if isinstance(x, parser.SubPattern):
+            for op, av in x.data:
+                if str(op) == 'SUBPATTERN' and isinstance(av, tuple) and av and av[0] == group:
+                    found.append(int(av[-1].getwidth()[0]))
+                rec(av)
+        elif isinstance(x, (tuple, list)):
+            for y in x:
+                rec(y)
+
+    rec(tree)
+    return min(found) if found else None
+
+
+def dominating_outcomes(cfg: CFG, nid: int) -> List[Tuple[int, str, bool]]:
+    """(test node id, edge label, outcome) of every branch test whose outcome is fixed on all paths entry -> nid"""
+    out = []
+    for t in cfg.live_nodes():
+        if t.kind != 'test' or t.id == nid:
+            continue
+        for lab, truth in (('T', True), ('F', False)):
+            edges = flow.edges_out(cfg, t.id, lab)
+            if edges and nid not in flow.reachable(cfg, [cfg.entry], avoid_edges=edges):
+                out.append((t.id, lab, truth))
+    return out
+
+
+def rebound_between(cfg: CFG, tid: int, label: str, nid: int, names: Set[str], attr_texts: Set[str] = frozenset()) -> bool:
+    """May one of the local `names` (or an attribute chain written as in `attr_texts`) be re-bound on a way from the
+    `label` edge of test `tid` to node `nid` that does not pass the test again?  (Then what the test said is stale.)"""
+    starts = [b for (_a, b, _l) in flow.edges_out(cfg, tid, label)]
+    after = flow.reachable(cfg, starts, avoid_nodes=[tid])
+    for d in after:
+        n = cfg.node(d)
+        hit = any(x.name in names for x in node_defs(n))
+        if not hit and attr_texts and n.kind == 'stmt' and isinstance(n.ast, (ast.Assign, ast.AnnAssign, ast.AugAssign, ast.Delete)):
+            tg = n.ast.targets if isinstance(n.ast, (ast.Assign, ast.Delete)) else [n.ast.target]
+            for t in tg:
+                for x in ([t] if not isinstance(t, (ast.Tuple, ast.List)) else list(t.elts)):
+                    if isinstance(x, ast.Attribute) and _txt(x) in attr_texts:
+                        hit = True
+        if not hit and attr_texts and n.kind == 'stmt':
+            for c in n.calls():   # in-place mutation of the attribute (pop / clear / remove ...) may shorten it
+                if isinstance(c.func, ast.Attribute) and c.func.attr in ('pop', 'clear', 'remove', 'popitem') and _txt(c.func.value) in attr_texts:
+                    hit = True
+        if not hit:
+            continue
+        if d == nid:
+            # the use itself re-binds (x = x[0]): the subscript is evaluated first; stale only if the node can reach itself
+            nxt = [b for (b, l) in cfg.succ[d] if l != 'exc']
+            if nid in flow.reachable(cfg, nxt, avoid_nodes=[tid]):
+                return True
+            continue
+        nxt = [b for (b, l) in cfg.succ[d] if l != 'exc']
+        if nid in flow.reachable(cfg, nxt, avoid_nodes=[tid]) or nid in nxt:
+            return True
+    return False
+
+
+_TEXT_ANNOTATIONS = ('str', 'bytes', 'Optional[str]', 'Optional[bytes]', "'str'", "'bytes'", 'AnyStr')
+_TEXT_METHODS = ('strip', 'lstrip', 'rstrip', 'lower', 'upper', 'casefold', 'title', 'capitalize', 'swapcase', 'replace', 'decode', 'encode',
+                 'format', 'join', 'removeprefix', 'removesuffix', 'expandtabs', 'translate', 'zfill', 'ljust', 'rjust', 'center', 'group')
+_TEXT_PIECES_METHODS = ('split', 'rsplit', 'splitlines', 'partition', 'rpartition', 'groups', 'findall')
+# external (stdlib) functions that answer a str for a str
+_EXTERNAL_TEXT_FUNCS = ('http.cookies._unquote', 'urllib.parse.unquote', 'urllib.parse.unquote_plus', 'urllib.parse.quote', 'html.escape', 'html.unescape')
+
+
+class SeqKinds:
+    """What a local expression of one function denotes, as far as an integer index is concerned:
+    'text' (str / bytes), 'seq' (list / tuple), 'map' (mapping: a subscript is a key lookup), None (not known).
+    Flow-insensitive over all bindings of a name; a name bound to different kinds is None."""
+
+    def __init__(self, p: Project, f: Func):
+        self.p, self.f = p, f
+        self.binds: Dict[str, List[Tuple[str, object, Optional[int]]]] = {}
+        self._active: Set[str] = set()
+        a = f.node.args
+        for arg in list(a.posonlyargs) + list(a.args) + list(a.kwonlyargs):
+            self.binds.setdefault(arg.arg, []).append(('param', arg.annotation, None))
+
+        def bind(t, kind, v, idx=None):
+            if isinstance(t, ast.Name):
+                self.binds.setdefault(t.id, []).append((kind, v, idx))
+            elif isinstance(t, ast.Starred):
+                bind(t.value, 'opaque', None)
+            elif isinstance(t, (ast.Tuple, ast.List)):
+                if kind == 'assign' and isinstance(v, (ast.Tuple, ast.List)) and len(v.elts) == len(t.elts):
+                    for te, ve in zip(t.elts, v.elts):
+                        bind(te, 'assign', ve)
+                else:
+                    for i, te in enumerate(t.elts):
+                        bind(te, 'unpack' if kind == 'assign' else 'iter-unpack' if kind in ('iter', 'iter-unpack') else 'opaque', v, i)
+
+        for n in walk_no_nested(f.node):
+            if isinstance(n, ast.Assign):
+                for t in n.targets:
+                    bind(t, 'assign', n.value)
+            elif isinstance(n, ast.AnnAssign) and n.value is not None:
+                bind(n.target, 'assign', n.value)
+            elif isinstance(n, ast.AugAssign):
+                bind(n.target, 'assign', n.value)      # text += text stays text; anything else disagrees and yields None
+            elif isinstance(n, (ast.For, ast.AsyncFor, ast.comprehension)):
+                bind(n.target, 'iter', n.iter)
+            elif isinstance(n, ast.NamedExpr):
+                bind(n.target, 'assign', n.value)
+            elif isinstance(n, (ast.With, ast.AsyncWith)):
+                for it in n.items:
+                    if it.optional_vars is not None:
+                        bind(it.optional_vars, 'opaque', None)
+            elif isinstance(n, ast.ExceptHandler) and n.name:
+                self.binds.setdefault(n.name, []).append(('opaque', None, None))
+
+    @staticmethod
+    def _of_annotation(a) -> Optional[str]:
+        if a is None:
+            return None
+        t = ast.unparse(a).replace('typing.', '')
+        if t in _TEXT_ANNOTATIONS:
+            return 'text'
+        for pre in ('Optional[', 'UnsetOr['):
+            while t.startswith(pre) and t.endswith(']'):
+                t = t[len(pre):-1]
+        if t in _TEXT_ANNOTATIONS:
+            return 'text'
+        if t.startswith(('List[', 'Tuple[', 'Sequence[', 'list[', 'tuple[')) or t in ('list', 'tuple'):
+            return 'seq'
+        if t.startswith(('Dict[', 'Mapping[', 'MutableMapping[', 'dict[')) or t in ('dict',):
+            return 'map'
+        return None
+
+    @staticmethod
+    def _elem_of_annotation(a) -> Optional[str]:
+        if a is None:
+            return None
+        t = ast.unparse(a).replace('typing.', '')
+        for pre in ('Iterator[', 'Iterable[', 'List[', 'Sequence[', 'Generator[', 'list['):
+            if t.startswith(pre):
+                inner = t[len(pre):-1].split(',')[0].strip()
+                return 'text' if inner in _TEXT_ANNOTATIONS else None
+        return None
+
+    def _callee_returns(self, e):
+        """return annotation of the package function / property an expression calls or reads"""
+        if isinstance(e, ast.Call):
+            t = self.p.callee(self.f, e)
+            if isinstance(t, Func):
+                return t.node.returns
+        if isinstance(e, ast.Attribute) and isinstance(e.value, ast.Name) and e.value.id == 'self':
+            c = func_owner_class(self.f)
+            if c is not None:
+                m = self.p.lookup_method(c.qual, e.attr)
+                if m is not None and m.is_property():
+                    return m.node.returns
+        return None
+
+    def elem_kind(self, e) -> Optional[str]:
+        """kind of the items obtained by iterating e"""
+        if isinstance(e, ast.Call) and isinstance(e.func, ast.Attribute) and e.func.attr in _TEXT_PIECES_METHODS:
+            return 'text'
+        if self.kind(e) == 'text':
+            return 'text'
+        return self._elem_of_annotation(self._callee_returns(e)) if isinstance(e, (ast.Call, ast.Attribute)) else (
+            self._name_elem(e) if isinstance(e, ast.Name) else None)
+
+    def _name_elem(self, e: ast.Name) -> Optional[str]:
+        bs = self.binds.get(e.id, [])
+        ks = set()
+        for how, v, _i in bs:
+            if how == 'assign' and v is not None and not (isinstance(v, ast.Name) and v.id == e.id):
+                ks.add(self.elem_kind(v) if not isinstance(v, ast.Name) else None)
+            else:
+                ks.add(None)
+        return ks.pop() if len(ks) == 1 else None
+
+    def kind(self, e) -> Optional[str]:
+        f = self.f
+        if isinstance(e, ast.Constant):
+            return 'text' if isinstance(e.value, (str, bytes)) else None
+        if isinstance(e, ast.JoinedStr):
+            return 'text'
+        if isinstance(e, (ast.List, ast.Tuple, ast.ListComp)):
+            return 'seq'
+        if isinstance(e, (ast.Dict, ast.DictComp)):
+            return 'map'
+        if table_of(f, e) is not None:
+            return 'map'
+        if isinstance(e, ast.Name):
+            if e.id in self._active:
+                return 'any'        # a cycle agrees with whatever the other bindings say
+            bs = self.binds.get(e.id)
+            if not bs:
+                q = self.p.resolve_expr(f.module, e, f)
+                if q:
+                    head, _, tail = q.rpartition('.')
+                    m = self.p.modules.get(head)
+                    if m is not None and tail in m.consts:
+                        v = m.consts[tail]
+                        if isinstance(v, (ast.Dict, ast.DictComp)) or (isinstance(v, ast.Call) and isinstance(v.func, ast.Name) and v.func.id == 'dict'):
+                            return 'map'
+                        if isinstance(v, ast.Constant) and isinstance(v.value, (str, bytes)):
+                            return 'text'
+                        if isinstance(v, (ast.Tuple, ast.List)):
+                            return 'seq'
+                return None
+            self._active.add(e.id)
+            try:
+                ks = set()
+                for how, v, idx in bs:
+                    if how == 'param':
+                        ks.add(self._of_annotation(v))
+                    elif how == 'assign':
+                        ks.add(self.kind(v))
+                    elif how == 'unpack':
+                        if isinstance(v, ast.Call) and isinstance(v.func, ast.Attribute) and v.func.attr in _TEXT_PIECES_METHODS:
+                            ks.add('text')
+                        else:
+                            ks.add(None)
+                    elif how == 'iter':
+                        ks.add(self.elem_kind(v))
+                    elif how == 'iter-unpack':
+                        ks.add('text' if isinstance(v, ast.Call) and isinstance(v.func, ast.Attribute) and v.func.attr in ('findall', 'finditer') else None)
+                    else:
+                        ks.add(None)
+            finally:
+                self._active.discard(e.id)
+            ks.discard('any')
+            return ks.pop() if len(ks) == 1 else None
+        if isinstance(e, ast.Subscript):
+            if isinstance(e.slice, ast.Slice):
+                return self.kind(e.value)
+            t = table_of(f, e.value)
+            if t is not None and t[0] in ('environ', 'asgi-headers', 'cached-headers'):
+                return 'text'
+            return None
+        if isinstance(e, ast.BinOp) and isinstance(e.op, (ast.Add, ast.Mod)):
+            l, r = self.kind(e.left), self.kind(e.right)
+            return 'text' if 'text' in (l, r) and {l, r} <= {'text', 'any'} else ('seq' if l == r == 'seq' else None)
+        if isinstance(e, ast.IfExp):
+            ks = {self.kind(e.body), self.kind(e.orelse)} - {'any'}
+            return ks.pop() if len(ks) == 1 else None
+        if isinstance(e, ast.BoolOp):
+            ks = {self.kind(v) for v in e.values} - {'any'}
+            return ks.pop() if len(ks) == 1 else None
+        if isinstance(e, ast.NamedExpr):
+            return self.kind(e.value)
+        if isinstance(e, ast.Call):
+            if isinstance(e.func, ast.Attribute):
+                if e.func.attr in _TEXT_METHODS:
+                    return 'text'
+                if e.func.attr in _TEXT_PIECES_METHODS:
+                    return 'seq'
+                if e.func.attr in ('items', 'keys', 'values') and not e.args:
+                    return None
+                if e.func.attr in ('get', 'pop') and e.args:
+                    t = table_of(f, e.func.value)
+                    if t is not None and t[0] in ('environ', 'asgi-headers', 'cached-headers'):
+                        return 'text'
+            if isinstance(e.func, ast.Name) and e.func.id not in self.binds:
+                if e.func.id in ('str', 'bytes', 'repr', 'chr'):
+                    return 'text'
+                if e.func.id in ('list', 'tuple', 'sorted'):
+                    return 'seq'
+                if e.func.id in ('dict',):
+                    return 'map'
+            t = self.p.resolve_callable(f, e.func) if isinstance(e.func, (ast.Name, ast.Attribute)) else None
+            if isinstance(t, str) and t in _EXTERNAL_TEXT_FUNCS:
+                return 'text'
+            return self._of_annotation(self._callee_returns(e))
+        if isinstance(e, ast.Attribute):
+            return self._of_annotation(self._callee_returns(e))
+        return None
